@@ -175,7 +175,7 @@ def judge(name, text, schema_names, exp_ents, exp_types, res):
         others.update(d['others'])
     if any(k[0].startswith('does-not') for k in out):
         return out
-    kw = lambda n: n + '_' if n in PYKW else n
+    kw = lambda n: n + '_' if (n in PYKW or (n in PYBUILTINS and n + '_' in classes)) else n
     for en, e in exp_ents.items():
         c = classes.get(kw(en))
         if c is None:
@@ -227,6 +227,8 @@ def judge(name, text, schema_names, exp_ents, exp_types, res):
     return out
 
 
+# names of Python builtins may be escaped the same way (the generator does it for some of them, e.g. 'property'); whether it must is decided by the import test
+PYBUILTINS = set(n.lower() for n in dir(__import__('builtins')))
 PYKW = {'class', 'def', 'del', 'assert', 'async', 'await', 'break', 'continue', 'elif', 'except', 'finally', 'global', 'import', 'is', 'lambda', 'nonlocal', 'pass', 'raise', 'try', 'yield',
         'none', 'true', 'false'}
 
@@ -318,12 +320,14 @@ def main():
                 classes = {}
                 for mod, d in res.get('mods', {}).items():
                     classes.update(d.get('classes', {}))
+                kw = lambda n: n + '_' if (n in PYKW or (n in PYBUILTINS and n + '_' in classes)) else n       # as in judge(): a Python keyword cannot name a class
                 for en, e in only_bases.items():
-                    c = classes.get(en)
+                    c = classes.get(kw(en))
+                    wb = [kw(b) for b in e['bases']]
                     if c is None:
                         v.append(('entity-class-missing/%s' % name.split('/')[0], 'no class for entity %s' % en))
-                    elif c['bases'] != (e['bases'] or ['BaseEntityClass']):
-                        v.append(('bases/%s' % ('order' if sorted(c['bases']) == sorted(e['bases']) else 'set'), 'class %s has bases %s, supertypes are %s' % (en, c['bases'], e['bases'])))
+                    elif c['bases'] != (wb or ['BaseEntityClass']):
+                        v.append(('bases/%s' % ('order' if sorted(c['bases']) == sorted(wb) else 'set'), 'class %s has bases %s, supertypes are %s' % (en, c['bases'], wb)))
         except Exception as ex:
             chk.harness_error('judge failed on %s: %r' % (name, ex))
             continue
